@@ -15,12 +15,19 @@ impl Prop for P {
         "as C19 but biased to rejected operations: invalid batches of every error kind (constraints Invalid/Overlap/NoAdjacent, neighbour verification, header verification at every batch position, duplicate hash at every batch position incl. duplicates inside the batch), removals/marks/metadata on absent heights; for every failed op the full observable state BEFORE and AFTER the op is dumped for both stores. Non-trivial = every op except reset/dump."
     }
     fn gen_ops(&mut self, rng: &mut Rng, tier: Tier, out: &mut Emitter) {
-        let cfg = if tier == Tier::Thorough {
-            GenCfg { histories: 150, max_ops: 300, max_chain: 120, max_batch: 48, invalid_pct: 65, remove_w: 30, query_w: 5, sample_w: 25 }
-        } else {
-            GenCfg { histories: 40, max_ops: 60, max_chain: 24, max_batch: 8, invalid_pct: 65, remove_w: 30, query_w: 5, sample_w: 25 }
+        let mk = |histories, max_ops, max_chain, max_batch| GenCfg {
+            histories, max_ops, max_chain, max_batch,
+            dup_pct: 40, invalid_pct: 65, remove_w: 30, query_w: 5, sample_w: 25,
         };
-        gen_all(&mut self.0, rng, &cfg, out);
+        if tier == Tier::Thorough {
+            // many medium histories, plus a few at the scale the property names
+            // (chains of ~200 headers, a few hundred operations)
+            gen_all(&mut self.0, rng, &mk(80, 250, 100, 32), out);
+            gen_all(&mut self.0, rng, &mk(6, 400, 200, 64), out);
+        } else {
+            gen_all(&mut self.0, rng, &mk(30, 50, 20, 8), out);
+            gen_all(&mut self.0, rng, &mk(1, 120, 60, 16), out);
+        }
     }
     fn run(&mut self, line: &str) -> String {
         self.0.run(line)
